@@ -40,4 +40,23 @@ def firstComplete {α : Type} (data : String → String → α → Rat) (T : Str
     (s : State) (order : List α) : Option Nat :=
   ((List.range order.length).map (· + 1)).find? (fun k => auditComplete data T s (order.take k))
 
+/-! ### style-based: an assertion uses only the drawn cards that list its contest (`mvrs_to_data` with
+`use_style`, L1653-1659: `cvr_sample[i].has_contest(con.id) and cvr_sample[i].sample_num <= con.sample_threshold`;
+here with a threshold that every drawn card meets) -/
+
+/-- as `testOn`, the data of an assertion being those of the drawn cards it uses (`none` = not used) -/
+def testOnOpt {α : Type} (data : String → String → α → Option Rat) (T : String → String → SeqTest)
+    (h : List α) : Status.Test :=
+  fun cid name => match T cid name (h.filterMap (data cid name)) with
+    | .ok r => r
+    | .error _ => (XR.nan, [])
+
+def auditCompleteOpt {α : Type} (data : String → String → α → Option Rat) (T : String → String → SeqTest)
+    (s : State) (h : List α) : Bool :=
+  summarizeStatus (setPValues (testOnOpt data T h) s).2
+
+def firstCompleteOpt {α : Type} (data : String → String → α → Option Rat) (T : String → String → SeqTest)
+    (s : State) (order : List α) : Option Nat :=
+  ((List.range order.length).map (· + 1)).find? (fun k => auditCompleteOpt data T s (order.take k))
+
 end Shangrla.AuditLoop
